@@ -688,7 +688,7 @@ impl Subscription {
                 IterDirection::Forward,
             )
             .await?;
-        while let Some(commits) = iter.next_batch(DEFAULT_BATCH_SIZE).await? {
+        'iter: while let Some(commits) = iter.next_batch(DEFAULT_BATCH_SIZE).await? {
             #[cfg(sierra_db_sierradb_verif)]
             sierradb::verif::point(
                 "sub.hist.stream_batch",
@@ -700,7 +700,9 @@ impl Subscription {
                 };
 
                 if !watermark.can_read(first_partition_sequence) {
-                    break;
+                    // Stop the whole history read: going on with the next batch would skip
+                    // this event if the watermark has advanced in the meantime
+                    break 'iter;
                 }
 
                 for event in commit {
